@@ -6,6 +6,7 @@ From Coq Require Import List ZArith QArith Bool.
 From PV Require Import lib.Sx lib.Str lib.Result model.SccTime model.SccStash model.SccPopon spec.SpecSccTime.
 From PV Require Import model.SccDecoder spec.Spec608 spec.SpecScc05.
 From PV Require Import proofs.SccTimeFacts proofs.SccStashFacts proofs.SccPoponFacts proofs.SccPoponStage1 proofs.SccPoponTimesFacts proofs.SccPoponStage4 proofs.SccPoponStage3 proofs.SccPoponStage6 proofs.SccPoponStage5 proofs.SccPoponStage7 proofs.SccPoponStage8 proofs.SccPoponStage9.
+From PV Require Import spec.SpecSccTime2 proofs.SccTimesComposeFacts.
 Import ListNotations.
 
 (* the string surgery of get_time (`_time[:-2] + str(int(_time[-2:]) + frames)`), the regex prefix match, the split
@@ -129,7 +130,7 @@ Proof. exact popon_stage7_spans_mult. Qed.
 Print Assumptions C06_popon_stage7_spans_partial.
 
 (* popon_times over the FULL item domain (all five item kinds incl. mid-row codes, every preamble style, any number of
-   rows per load, any number of loads, one load per line, Erase-Displayed-Memory lines anywhere; domain lc_ok8, see C05):
+   rows per load, any number of loads, one load per line, Erase-Displayed-Memory lines anywhere; domain load_wf per load, see C05):
    the captions of the i-th load all carry the i-th span of the statement computed from the EOC / EDM instants *)
 Theorem C06_popon_times : forall d off segs evs,
   forallb pseg_ok8 segs = true -> res_map (pseg_event d off) segs = Ok evs -> positive evs ->
@@ -142,6 +143,56 @@ Theorem C06_popon_times_screens : forall d off segs evs,
   rmap screens (spans_of (read off (map (pseg_line d) segs))) = rmap screens (expected_with join_threshold evs).
 Proof. exact popon_times_screens. Qed.
 Print Assumptions C06_popon_times_screens.
+
+(* audit responses (wave 3) *)
+(* non-drop = 1001/1000 x drop for EVERY offset, before the flooring at 0 *)
+Theorem C06_time_formula_raw : forall h m s ff drop off,
+  (time_formula h m s ff drop off == floor0 (raw_us h m s ff drop - off))%Q.
+Proof. exact time_formula_raw. Qed.
+Print Assumptions C06_time_formula_raw.
+Theorem C06_ndf_raw_is_1001_1000_of_df : forall h m s ff,
+  (raw_us h m s ff false == raw_us h m s ff true * (1001 # 1000))%Q.
+Proof. exact ndf_raw_is_1001_1000_of_df. Qed.
+Print Assumptions C06_ndf_raw_is_1001_1000_of_df.
+
+(* output level: start <= end and starts never decrease - for the statement's spans of nondecreasing instants (any
+   threshold) and for the captions `read` returns on the pop-on domain *)
+Theorem C06_expected_start_le_end : forall thr evs l, (0 <= thr)%Q -> nondecreasing 0 evs -> expected_with thr evs = Ok l ->
+  Forall (fun p => (fst p <= snd p)%Q) l /\
+  (forall i a b, nth_error l i = Some a -> nth_error l (S i) = Some b -> (fst a <= fst b)%Q).
+Proof. exact expected_start_le_end. Qed.
+Print Assumptions C06_expected_start_le_end.
+Theorem C06_read_start_le_end : forall d off segs evs caps,
+  forallb pseg_ok8 segs = true -> res_map (pseg_event d off) segs = Ok evs -> positive evs -> nondecreasing 0 evs ->
+  read off (map (pseg_line d) segs) = ROk caps ->
+  Forall (fun c => (pc_start c <= pc_end c)%Q) caps /\
+  (forall i a b, nth_error caps i = Some a -> nth_error caps (S i) = Some b -> (pc_start a <= pc_start b)%Q).
+Proof. exact read_start_le_end. Qed.
+Print Assumptions C06_read_start_le_end.
+
+(* composition: the events `read` works from are the statement's instants of the rendered timecodes; on whole-frame
+   gaps the threshold "five frames + 1 us" and the harness's upper threshold give the same spans; together with
+   popon_times: what `read` returns carries the statement's own spans (up to == of rationals) of the statement's own
+   instants, for loads and clear lines stamped with well-formed timecodes of one rate and every instant positive *)
+Theorem C06_events_are_spec_instants : forall d off segs, forallb tseg_wf segs = true ->
+  exists evs, res_map (pseg_event d off) (map tseg_pseg segs) = Ok evs /\
+              Forall2 ev_eq evs (map (tseg_spec_event d off) segs).
+Proof. exact events_are_spec_instants. Qed.
+Print Assumptions C06_events_are_spec_instants.
+Theorem C06_expected_threshold_irrelevant : forall drop off evs,
+  (forall e, In e evs -> on_lattice drop off (ev_time e)) ->
+  expected_with join_threshold evs = expected_with thr_hi evs.
+Proof. exact expected_threshold_irrelevant. Qed.
+Print Assumptions C06_expected_threshold_irrelevant.
+Theorem C06_read_is_statement_spans : forall d off drop segs,
+  forallb tseg_wf segs = true ->
+  (forall s, In s segs -> tc_drop (tseg_tc s) = drop) ->
+  positive (map (tseg_spec_event d off) segs) ->
+  exists r, spans_of (read off (map (pseg_line d) (map tseg_pseg segs)))
+            = rmap (fun spans => flat_map bspans (combine (ploads_of (map tseg_pseg segs)) spans)) r /\
+            res_span_eq r (expected_with thr_hi (map (tseg_spec_event d off) segs)).
+Proof. exact read_is_statement_spans. Qed.
+Print Assumptions C06_read_is_statement_spans.
 
 (* known defect #20 (offset beyond the timecodes): instants floored to 0 collide with the end == 0 sentinel *)
 Theorem C06_end_zero_sentinel_refuted :
@@ -159,3 +210,16 @@ Example C06_example_spans :
   popon_read (map to_pev [Show (t 1000000%Z); Clear (t 3000000%Z); Show (t 3100000%Z); Show (t 5000000%Z)])
   = Ok [(t 1000000%Z, t 3100000%Z); (t 3100000%Z, t 5000000%Z); (t 5000000%Z, Qplus (t 5000000%Z) (t 4000000%Z))].
 Proof. vm_compute. reflexivity. Qed.
+(* the harness oracle (request 601) on the fully floored witness of the known defect: the statement's own answer and
+   the answer with the two equal spans merged are accepted, the implementation's "+4 s" answer is not *)
+Example C06_ok_on_floored_witness :
+  ok_c06_gap [Show 0; Clear 0; Show 0; Clear 0] (Ok [(0, 0); (0, 0)])%Q = true /\
+  ok_c06_gap [Show 0; Clear 0; Show 0; Clear 0] (Ok [(0, 0)])%Q = true /\
+  ok_c06_gap [Show 0; Clear 0; Show 0; Clear 0] (Ok [(0, inject_Z 4000000); (0, inject_Z 4000000)])%Q = false.
+Proof. exact ok_on_floored_witness. Qed.
+(* the composition is not vacuous: a two-load program with rendered timecodes *)
+Example C06_statement_spans_instance :
+  exists r, spans_of (read 0 (map (pseg_line false) (map tseg_pseg ex_tsegs)))
+            = rmap (fun spans => flat_map bspans (combine (ploads_of (map tseg_pseg ex_tsegs)) spans)) r /\
+            res_span_eq r (expected_with thr_hi (map (tseg_spec_event false 0) ex_tsegs)).
+Proof. exact (proj2 (proj2 ex_statement_spans)). Qed.
